@@ -1,7 +1,9 @@
 package main
 
 import (
+	"go/constant"
 	"go/token"
+	"go/types"
 
 	"golang.org/x/tools/go/ssa"
 )
@@ -129,3 +131,94 @@ func dominatedByTrueEdge(b *ssa.BasicBlock, ev func(cond ssa.Value) bool) bool {
 }
 
 var _ = token.NoPos
+
+// constIntResults: v is the result of a call to a module function with a single integer result whose every return
+// operand is an integer constant (lineBreakLen: 2, 1 or 0). The value is then one of a fixed set of small numbers —
+// as good as a literal for rules that ask whether an amount is fixed.
+func constIntResults(v ssa.Value) ([]int64, bool) {
+	call, ok := v.(*ssa.Call)
+	if !ok {
+		return nil, false
+	}
+	g := call.Call.StaticCallee()
+	if g == nil || g.Blocks == nil || g.Signature.Results().Len() != 1 {
+		return nil, false
+	}
+	if b, ok := g.Signature.Results().At(0).Type().Underlying().(*types.Basic); !ok || b.Info()&types.IsInteger == 0 {
+		return nil, false
+	}
+	var out []int64
+	var add func(x ssa.Value, d int) bool
+	add = func(x ssa.Value, d int) bool {
+		switch y := x.(type) {
+		case *ssa.Const:
+			if y.Value == nil || y.Value.Kind() != constant.Int {
+				return false
+			}
+			out = append(out, y.Int64())
+			return true
+		case *ssa.Phi:
+			if d > 3 {
+				return false
+			}
+			for _, e := range y.Edges {
+				if !add(e, d+1) {
+					return false
+				}
+			}
+			return true
+		}
+		return false
+	}
+	n := 0
+	for _, b := range g.Blocks {
+		if r, ok := b.Instrs[len(b.Instrs)-1].(*ssa.Return); ok && len(r.Results) == 1 {
+			n++
+			if !add(r.Results[0], 0) {
+				return nil, false
+			}
+		}
+	}
+	return out, n > 0
+}
+
+// positiveAt: the integer value v is known positive in block b — every value it can take is a positive constant, or a
+// dominating branch tested v > 0 / v != 0 / v >= 1 (for a value that is never negative)
+func positiveAt(v ssa.Value, b *ssa.BasicBlock) bool {
+	vals, ok := constIntResults(v)
+	if !ok {
+		return false
+	}
+	allPos, nonNeg := true, true
+	for _, k := range vals {
+		if k <= 0 {
+			allPos = false
+		}
+		if k < 0 {
+			nonNeg = false
+		}
+	}
+	if allPos {
+		return true
+	}
+	for _, e0 := range dominatingEdges(b) {
+		e := stripNot(e0)
+		bo, ok := e.cond.(*ssa.BinOp)
+		if !ok || !e.truth {
+			continue
+		}
+		k, isC := bo.Y.(*ssa.Const)
+		if bo.X != v || !isC || k.Value == nil || k.Value.Kind() != constant.Int {
+			continue
+		}
+		switch {
+		case bo.Op == token.GTR && k.Int64() >= 0:
+			return true
+		case bo.Op == token.GEQ && k.Int64() >= 1:
+			return true
+		case bo.Op == token.NEQ && k.Int64() == 0 && nonNeg:
+			return true
+		}
+	}
+	return false
+}
